@@ -72,7 +72,8 @@ def selector(draw, g):
 def cases(draw):
     mode = draw(st.sampled_from(["classes", "sm"]))
     if mode == "classes":
-        g = draw(gg.general(inst_props=(RDF_TYPE, RDF_TYPE, "http://ex.org/isA", gg.INST_PROPS[2])))
+        odd = draw(st.integers(0, 2)) == 0
+        g = draw(gg.general(inst_props=(RDF_TYPE, RDF_TYPE, "http://ex.org/isA", gg.INST_PROPS[2]), class_typing=odd, iri_like_literals=odd))
         cfg = draw(gg.switches())
         cfg["instances_report_mode"] = "mixed"
         target = draw(common.target_spec(g, p_all=0.25))
